@@ -14,7 +14,8 @@ Gap == 255
 
 KeyOf(t) == <<t[1], t[2]>>
 Keys(m) == { KeyOf(t) : t \in m }
-IsFunctional(m) == \A t, u \in m : KeyOf(t) = KeyOf(u) => t = u
+\* no two triples with one key (for finite m the same as \A t, u \in m : KeyOf(t) = KeyOf(u) => t = u, without the quadratic cost)
+IsFunctional(m) == Cardinality(Keys(m)) = Cardinality(m)
 HasKey(m, x, y) == \E t \in m : t[1] = x /\ t[2] = y
 Get(m, x, y) == (CHOOSE t \in m : t[1] = x /\ t[2] = y)[3]
 SetKey(m, x, y, s) == { t \in m : ~(t[1] = x /\ t[2] = y) } \cup { <<x, y, s>> }        \* m[{x,y}] = s
